@@ -715,6 +715,25 @@ def cell_grid(rng):
     return out
 
 
+def boundary_dags(rng):
+    """the single-root DAGs of cell_grid as (tag, nodes, root): for the round-trip oracle of C03"""
+    out = []
+    for n in list(range(0, 26)) + [63, 64, 65, 1015, 1016, 1017, 1018, 1019, 1020, 1021, 1022, 1023]:
+        for bits in sorted({'0' * n, '1' * n, G.rand_bits(rng, n), ('01' * n)[:n], '0' * max(0, n - 1) + '1' * min(1, n)}):
+            out.append((f'src-bits{n}', [(G.ORD, bits, ())], 0))
+    leaves = [(G.ORD, format(k, '05b'), ()) for k in range(4)]
+    for k in range(1, 5):
+        out.append((f'src-refs{k}', leaves + [(G.ORD, G.rand_bits(rng, 3 * k), tuple(range(k)))], 4))
+    out.append(('src-dag', [(G.ORD, '1', ()), (G.ORD, '01', (0, 0)), (G.ORD, '001', (1, 0))], 2))
+    out.append(('src-lib', [(G.LIB, G.bytes_to_bits(bytes([2]) + rng.randbytes(32)), ())], 0))
+    for t in range(12):
+        db = G.DagBuilder()
+        top = G.gen_exotic_tree(rng, db, rng.choice([0, 1, 1, 2]), rng.randrange(2, 7))
+        if db.ok(top):
+            out.append((f'src-exotic{t}', db.nodes, top))
+    return out
+
+
 def src_search_cells(ctx):
     """A c05_src_deserialize_cell / c05_src_deserialize obligation broke: evaluate, in Lean, the regenerated cell reader against
     the hand model on the records of conforming boundary bags and on raw boundary records; judge the bags that contain a
